@@ -276,7 +276,14 @@ impl Request {
         }
 
         let content_length = match self.headers.get_raw(RequestHeader::ContentLength) {
-            Some(v) => unsafe {v.as_bytes()}.into_iter().fold(0, |len, b| 10*len + (*b - b'0') as usize),
+            /* digits only, and without overflow: anything else is not a length */
+            Some(v) => match unsafe {v.as_bytes()} {
+                [] => return Err((|| Response::BadRequest())()),
+                digits => digits.into_iter().try_fold(0usize, |len, b| match b {
+                    b'0'..=b'9' => len.checked_mul(10)?.checked_add((*b - b'0') as usize),
+                    _ => None
+                }).ok_or_else(Response::BadRequest)?
+            }
             None    => 0,
         };
         match content_length {
